@@ -7,3 +7,28 @@ mod tasks;
 pub use event::{Event, ProcessorError, ProcessorStatus};
 pub(crate) use pipeline::Pipeline;
 pub(crate) use tasks::TaskTracker;
+
+/// Verification hooks, only compiled with `--cfg p2panda_p2panda_verif`: access to the processing
+/// pipeline which is otherwise only reachable through a spawned node.
+#[cfg(p2panda_p2panda_verif)]
+pub mod verif {
+    use p2panda_core::{LogId, Operation, PruneFlag};
+
+    pub use super::pipeline::Pipeline;
+    pub use super::tasks::TaskTracker;
+
+    use super::Event;
+
+    pub fn new_event<L, E, TP>(
+        operation: Operation<E>,
+        log_id: L,
+        topic: TP,
+        prune_flag: PruneFlag,
+    ) -> Event<L, E, TP>
+    where
+        L: LogId,
+        TP: Clone,
+    {
+        Event::new(operation, log_id, topic, prune_flag)
+    }
+}
